@@ -858,7 +858,7 @@ where
                             as u64,
                     ))
                     .await;
-                backoff *= 2;
+                backoff = cmp::min(backoff * 2, Duration::from_millis(1000));
                 // after printing this line, redo-log will recurse into t,
                 // whether it's us building it, or someone else.
                 logs::meta(
